@@ -182,6 +182,12 @@ def run(ctx):
         ok = False
         detail = U(c_arg)[:120]
         keys = groupby_keys(call)
+        flat = flat_row_lookup(c_arg, g, be)
+        if flat is not None:
+            okf, whyf, c_arg = flat
+            ctx.ob('site-pairing', fi, stmt, okf,
+                   'the conditional table is laid out as one row per parent configuration and the row is found by <key, strides>: the strides must be '
+                   'the row-major strides of the leading axes (stride_i = product of the sizes after i); %s' % whyf, construct='row index at ' + U(stmt)[:60])
         if isinstance(c_arg, ast.Subscript) and T(c_arg.slice) == g + '.name' and isinstance(c_arg.value, ast.Name):
             outer = be.env.get(c_arg.value.id)
             for lp, entry, body_env, pc_ in be.loops_done:
@@ -222,6 +228,120 @@ def all_empty_before(axes, pc):
         if T(strip_seq(c)) == P and not truth:
             return True
     return False
+
+
+def sym_tuple(e, rank, env):
+    """symbolic value of a shape / stride expression for a table of `rank` leading axes plus one last axis: a tuple of monomials
+    (each a sorted tuple of size symbols, () = 1); None if outside the dialect"""
+    def ev(x):
+        if isinstance(x, ast.Name) and x.id in env:
+            return ev(env[x.id])
+        if isinstance(x, ast.Attribute) and x.attr == 'shape':
+            return tuple((('n%d' % i),) for i in range(rank + 1))
+        if isinstance(x, ast.Constant) and isinstance(x.value, int) and x.value == 1:
+            return ('scalar', ())
+        if isinstance(x, (ast.Tuple, ast.List)):
+            out = []
+            for el in x.elts:
+                v = ev(el)
+                if v is None:
+                    return None
+                if isinstance(v, tuple) and v and v[0] == 'scalar':
+                    out.append(v[1])
+                else:
+                    return None
+            return tuple(out)
+        if isinstance(x, ast.BinOp) and isinstance(x.op, ast.Add):
+            a, b = ev(x.left), ev(x.right)
+            if a is None or b is None or (a and a[0] == 'scalar') or (b and b[0] == 'scalar'):
+                return None
+            return tuple(a) + tuple(b)
+        if isinstance(x, ast.Subscript) and isinstance(x.slice, ast.Slice):
+            v = ev(x.value)
+            if v is None or (v and v[0] == 'scalar'):
+                return None
+
+            def c(n):
+                if n is None:
+                    return None
+                if isinstance(n, ast.Constant) and isinstance(n.value, int):
+                    return n.value
+                if isinstance(n, ast.UnaryOp) and isinstance(n.op, ast.USub) and isinstance(n.operand, ast.Constant):
+                    return -n.operand.value
+                raise ValueError
+            try:
+                return tuple(v[slice(c(x.slice.lower), c(x.slice.upper), c(x.slice.step))])
+            except ValueError:
+                return None
+        if isinstance(x, ast.Call):
+            f = U(x.func).split('.')[-1]
+            if f in ('tuple', 'list', 'array', 'asarray') and len(x.args) == 1:
+                return ev(x.args[0])
+            if f == 'cumprod' and len(x.args) == 1:
+                v = ev(x.args[0])
+                if v is None or (v and v[0] == 'scalar'):
+                    return None
+                out, acc = [], ()
+                for m_ in v:
+                    acc = tuple(sorted(acc + tuple(m_)))
+                    out.append(acc)
+                return tuple(out)
+        return None
+    return ev(e)
+
+
+def flat_row_lookup(c_arg, g, be):
+    """counts = TABLE[<key . STRIDES>] with TABLE = MARG.reshape(-1, MARG.shape[-1])  ->  (strides are row-major?, why, MARG[g.name]) or None"""
+    env = {}
+    for lp, entry, body_env, pc_ in be.loops_done:
+        env.update(body_env)
+    for k, v in be.env.items():
+        env.setdefault(k, v)
+    if not isinstance(c_arg, ast.Subscript):
+        return None
+    tab = c_arg.value
+    tab_e = env.get(tab.id) if isinstance(tab, ast.Name) else tab
+    idx = c_arg.slice
+    if isinstance(idx, ast.Name) and idx.id in env:
+        idx = env[idx.id]
+    if not (isinstance(idx, ast.Call) and U(idx.func).split('.')[-1] == 'dot' and len(idx.args) == 2):
+        return None
+    key, strides = idx.args
+    if g + '.name' not in T(key):
+        key, strides = strides, key
+    if g + '.name' not in T(key):
+        return None
+    # the table: a 2-d reshape of the marginal that keeps the last axis
+    t = tab_e
+    if not (isinstance(t, ast.Call) and isinstance(t.func, ast.Attribute) and t.func.attr == 'reshape' and len(t.args) == 2
+            and T(t.args[0]) == '-1'):
+        raise AnalysisError('synthetic_data: row lookup into `%s`, which is not `<marginal>.reshape(-1, <last size>)`' % U(tab_e)[:80] if tab_e is not None else 'synthetic_data: unknown table')
+    src = t.func.value
+    while isinstance(src, ast.Call) and U(src.func).split('.')[-1] in ('ascontiguousarray', 'array', 'asarray', 'copy') and src.args:
+        src = src.args[0]
+    last_ok = T(t.args[1]).replace(' ', '') in ('%s.shape[-1]' % T(src), )
+    marg_name = None
+    for k, v in env.items():
+        if T(v) == T(src) and not k.startswith('__'):
+            marg_name = k
+    if isinstance(src, ast.Name):
+        marg_name = src.id
+    if marg_name is None or not last_ok:
+        raise AnalysisError('synthetic_data: the flattened table `%s` cannot be related to the marginal' % U(tab_e)[:80])
+    bad = None
+    for rank in (1, 2, 3, 4):
+        got = sym_tuple(strides, rank, env)
+        if got is None:
+            raise AnalysisError('synthetic_data: stride expression `%s` is outside the symbolic dialect' % U(strides)[:80])
+        want = tuple(tuple('n%d' % j for j in range(i + 1, rank)) for i in range(rank))
+        if tuple(tuple(m_) for m_ in got) != want:
+            bad = (rank, got, want)
+            break
+    fmt = lambda tup: '(' + ', '.join('*'.join(m_) if m_ else '1' for m_ in tup) + ')'
+    why = 'they are' if bad is None else 'for %d leading axes of sizes n0..n%d the code computes %s, row-major is %s: rows of other parent configurations ' \
+        '(or beyond the table) are read whenever the parents have different sizes' % (bad[0], bad[0] - 1, fmt(bad[1]), fmt(bad[2]))
+    equiv = ast.Subscript(value=ast.Name(id=marg_name, ctx=ast.Load()), slice=ast.parse(g + '.name', mode='eval').body, ctx=ast.Load())
+    return bad is None, why, equiv
 
 
 def marginal_axes(e):
